@@ -136,6 +136,21 @@ def h_connect(eng, params):
     elif case == 'will-both':
         kw.update(willTopic=scen.topic(eng), willMessage=scen.topic(eng), willQoS=eng.int('q', 0, 2), willRetain=eng.bool('r'))
         expect_ok = True
+    elif case == 'will-message-empty-only':
+        kw.update(willMessage=mkstr(eng, []))
+        expect_ok = False
+    elif case == 'will-topic-empty-only':
+        kw.update(willTopic=mkstr(eng, []))
+        expect_ok = False
+    elif case == 'password-empty-only':
+        kw.update(password=mkstr(eng, []))
+        expect_ok = False
+    elif case == 'will-empty-message':
+        kw.update(willTopic=scen.topic(eng), willMessage=mkstr(eng, []))
+        expect_ok = True
+    elif case == 'user-empty-password':
+        kw.update(username=scen.topic(eng), password=mkstr(eng, []))
+        expect_ok = True
     elif case == 'password-only':
         kw.update(password=scen.topic(eng))
         expect_ok = False
@@ -215,7 +230,7 @@ BAD_TOPICS = {'int': 5, 'None': None, 'dict': {'a': 1}, 'bytes': b'abc', 'float'
 
 def h_request(eng, params):
     op, case = params['op'], params['case']
-    w, c, req = scen.busy_prefix(eng, params['profile'], params['state'], jitter_pool=jitter(), window=8)
+    w, c, req = scen.busy_prefix(eng, params['profile'], params['state'], jitter_pool=jitter(), window=params.get('window', 8))
     w.begin_step(op)
     mark = len(w.events)
     tb = list(w.pending_timers())
@@ -291,8 +306,9 @@ def h_request(eng, params):
         m2 = len(w.events)
         if op == 'publish':
             tr2 = w.api(c, 'publish', 'after', scen.topic(eng, 0x76), mkbytearray(eng, [1]), qos=0)
-            if params['state'] == 'connected':
+            if params['state'] == 'connected' and not params.get('window'):
                 eng.check(len([e for e in w.events[m2:] if e.kind == 'write']) == 1, 'state-changed-by-rejected-call', sig='state-changed:' + what)
+            eng.check(tr2 is not None and not (tr2.fired and not tr2.fired[0][1]), 'state-changed-by-rejected-call', sig='state-changed:refused:' + what)
         if params['state'] == 'connecting':
             w.begin_step('connack')
             scen.connack(w, c)
@@ -315,7 +331,8 @@ def shards(tier):
         if profile != 'subscriber' or True:
             out.append(('setter', {'which': 'setBandwith', 'profile': profile, 'state': state}))
     for profile in ('pubsubs', 'publisher', 'subscriber'):
-        for case in ('willQoS', 'keepalive', 'will-topic-only', 'will-message-only', 'will-both', 'password-only', 'user-password'):
+        for case in ('willQoS', 'keepalive', 'will-topic-only', 'will-message-only', 'will-both', 'password-only', 'user-password',
+                     'will-message-empty-only', 'will-topic-empty-only', 'password-empty-only', 'will-empty-message', 'user-empty-password'):
             out.append(('connect', {'profile': profile, 'case': case}))
         for v in ('v31', 'v311', 'zero', 'none', 'dict', 'copy311'):
             out.append(('connect', {'profile': profile, 'case': 'version', 'v': v}))
@@ -338,6 +355,11 @@ def shards(tier):
             out.append(('request', {'op': 'publish', 'case': 'payload-ok', 'type': t, 'profile': profile, 'state': state}))
         for n in (65535, 65536):
             out.append(('request', {'op': 'publish', 'case': 'longtopic', 'n': n, 'profile': profile, 'state': state}))
+    # the same with the publish window full (two publishes in flight, window 2): the call must still be refused up front
+    for t in ('None', 'int', 'bytes'):
+        out.append(('request', {'op': 'publish', 'case': 'payload', 'type': t, 'profile': 'pubsubs', 'state': 'connected', 'window': 2}))
+    out.append(('request', {'op': 'publish', 'case': 'longtopic', 'n': 65536, 'profile': 'publisher', 'state': 'connected', 'window': 2}))
+    out.append(('request', {'op': 'publish', 'case': 'qos', 'profile': 'publisher', 'state': 'connected', 'window': 2}))
     for profile in ('pubsubs', 'subscriber'):
         for shape in ('str', 'tuple', 'list'):
             out.append(('request', {'op': 'subscribe', 'case': 'qos', 'shape': shape, 'profile': profile, 'state': 'connected'}))
@@ -354,7 +376,7 @@ META = {
             'are validity queries; non-trivial = accepted and rejected classes per entry point',
     'bounds': {'quick': 'setWindowSize(n), setTimeout(t int / real in -10..3000), setBandwith(b in -5..1e6, f in -5..16) in 5 profile/state combinations with requests pending; '
                         'connect: willQoS and keepalive unconstrained integers, client-id lengths 1,22,23,24,25 (v3.1) and 24,65535,65536 (v3.1.1), six version values, will '
-                        'topic/message presence, password without user, every string field at 65535/65536 bytes; every rejected call is repeated once and must be rejected again; rejected connect() also on a rebuilt protocol holding a carried-over persistent session; publish: QoS unconstrained, 7 wrong payload types, topic at '
+                        'topic/message presence (also with empty strings), password without user, every string field at 65535/65536 bytes; every rejected call is repeated once and must be rejected again; rejected connect() also on a rebuilt protocol holding a carried-over persistent session; publish: QoS unconstrained, 7 wrong payload types, topic at '
                         '65535/65536 bytes, in connecting/connected x publisher/pubsubs; subscribe: QoS unconstrained in the three shapes, 6 wrong topic types; unsubscribe: two shapes, 6 wrong types',
                'thorough': 'same (single-call space is covered completely at the quick tier)'},
     'stubs': ['fake transport', 'twisted task.Clock', 'jitter: fixed sequence'],
